@@ -66,7 +66,7 @@ theorem json_roundtrip (sp : Spec) (m : SMap) (hwf : m.WF)
     ∃ j, toJson sp m = .ok j ∧ fromJson sp j = .ok m := by
   obtain ⟨es, h1, h2⟩ := json_roundtrip_aux sp m [] (by simpa using hwf) hent
   refine ⟨.obj es, ?_, ?_⟩
-  · unfold toJson; rw [h1]; rfl
+  · unfold toJson; rw [h1]
   · simpa [fromJson] using h2
 
 /-! ### frozenset as a duplicate-free list -/
